@@ -10,7 +10,7 @@ run_one() {
   name=$(basename $d); prop=${name%%-*}
   R=/scratch/seed/$name; V=/scratch/seedv/$name
   rm -rf $R $V; mkdir -p $V; cp -r /repo $R; rm -rf $R/.git
-  cp -r /verif/contracts $V/contracts; cp /verif/MANIFEST.json $V/; cp /verif/known_findings.txt $V/ 2>/dev/null
+  cp -r /verif/contracts $V/contracts; cp /verif/MANIFEST.json /verif/properties.jsonl $V/; cp /verif/known_findings.txt $V/ 2>/dev/null
   if ! ( cd $R && git apply $d/patch.diff 2>/dev/null ); then echo "$name: patch does not apply"; rm -rf $R $V; return; fi
   res=""
   for p in $prop $extra; do
